@@ -5,4 +5,7 @@ from . import derive_rules
 def run(ctx):
     ctx.rules_run.append('S-COMPAT: reader version decoded abstractly over the writer version\'s item stream for every documented-compatible edit, both directions, every variant and presence vector')
     n = derive_rules.c10(ctx)
+    ctx.rules_run.append('NIL-PAIR: built-in types whose Encode overrides is_nil also override Decode::nil (an optional field the writer omits must be absent-able for every reader version)')
+    from .. import load
+    derive_rules.nil_pair(ctx, load.program('core-full'), ('minicbor',))
     return 'Reader schemas were run over writer schemas\' emissions for %d (pair, direction, variant, presence) cases; an incompatible control pair must be reported.' % n
